@@ -122,7 +122,28 @@ fn bit(seed: u64, i: usize, dens: u64) -> bool {
 }
 fn gen_bits(c: &SerdeCase) -> BitVec {
     let dens = [500u64, 20, 980, 0, 1000][(c.seed % 5) as usize];
-    (0..c.n).map(|i| bit(c.seed, i, dens)).collect()
+    let mut b: BitVec = (0..c.n).map(|i| bit(c.seed, i, dens)).collect();
+    // one case in three: the vector has a history (grown past its final length with ones, then
+    // popped or resized back), so the serialized backend carries stale bits and spare words
+    // beyond len, which every way of loading it back must ignore exactly as the original does
+    match (c.seed >> 17) % 6 {
+        0 => {
+            let extra = 1 + (c.seed >> 23) as usize % 130;
+            for _ in 0..extra {
+                b.push(true);
+            }
+            for _ in 0..extra {
+                b.pop();
+            }
+        }
+        1 => {
+            let extra = 1 + (c.seed >> 23) as usize % 130;
+            b.resize(c.n + extra, true);
+            b.resize(c.n, false);
+        }
+        _ => {}
+    }
+    b
 }
 fn val(seed: u64, i: usize) -> u64 {
     let mut x = seed ^ (i as u64).wrapping_mul(0xD1B54A32D192ED03);
@@ -134,10 +155,25 @@ type Digest = Vec<u64>;
 macro_rules! d_bits {
     ($x:expr, $n:expr) => {{
         let x = &$x;
-        let mut d: Digest = vec![BitLength::len(x) as u64, BitCount::count_ones(x) as u64];
+        // both the trait-qualified call and the method-call syntax a user writes (an inherent
+        // method of one backend type would shadow the trait method there and only there)
+        let mut d: Digest = vec![BitLength::len(x) as u64, BitCount::count_ones(x) as u64, x.len() as u64, x.count_ones() as u64, x.count_zeros() as u64];
         for i in 0..$n {
             d.push(x[i] as u64);
         }
+        d
+    }};
+}
+macro_rules! d_bitvec {
+    ($x:expr, $n:expr) => {{
+        let mut d = d_bits!($x, $n);
+        let x = &$x;
+        for i in 0..$n {
+            d.push(x.get(i) as u64);
+        }
+        d.extend(x.iter_ones().map(|p| p as u64));
+        d.extend(x.iter_zeros().map(|p| p as u64));
+        d.extend(x.iter().map(|b| b as u64));
         d
     }};
 }
@@ -160,6 +196,7 @@ macro_rules! d_rank {
         while p <= $n + 2 {
             d.push(Rank::rank(x, p) as u64);
             d.push(RankZero::rank_zero(x, p) as u64);
+            d.push(x.rank(p) as u64);
             if p < $n {
                 d.push(x[p] as u64);
             }
@@ -177,6 +214,7 @@ macro_rules! d_sel {
         let mut r = 0;
         while r < ones + 2 {
             d.push(Select::select(x, r).map(|v| v as u64 + 1).unwrap_or(0));
+            d.push(x.select(r).map(|v| v as u64 + 1).unwrap_or(0));
             r += step;
         }
         d
@@ -191,6 +229,7 @@ macro_rules! d_selz {
         let mut r = 0;
         while r < zeros + 2 {
             d.push(SelectZero::select_zero(x, r).map(|v| v as u64 + 1).unwrap_or(0));
+            d.push(x.select_zero(r).map(|v| v as u64 + 1).unwrap_or(0));
             r += step;
         }
         d
@@ -230,6 +269,7 @@ macro_rules! d_ef_seq {
         let mut d: Digest = vec![x.len() as u64];
         for i in 0..x.len() {
             d.push(IndexedSeq::get(x, i) as u64);
+            d.push(x.get(i) as u64);
         }
         d.extend(x.iter().map(|v| v as u64));
         if x.len() > 0 {
@@ -484,6 +524,12 @@ fn ef_values(c: &SerdeCase) -> (Vec<usize>, usize) {
     let n = c.n.max(1);
     let spread = [1usize, 3, 40, 1000][(c.seed % 4) as usize];
     let mut v: Vec<usize> = (0..n).map(|i| (val(c.seed, i) as usize) % (n * spread + 1)).collect();
+    if (c.seed >> 9) % 5 == 0 {
+        // a handful of huge values: 48..63 lower bits per element
+        let keep = 1 + (c.seed >> 13) as usize % 12;
+        let shift = [1u32, 1, 2, 3, 4, 8, 12][(c.seed >> 29) as usize % 7];
+        v = (0..keep.min(n)).map(|i| (val(c.seed, i) >> shift) as usize).collect();
+    }
     v.sort_unstable();
     let u = *v.last().unwrap() + (c.seed as usize % 3);
     (v, u.max(1))
@@ -557,7 +603,7 @@ fn run_family(c: &SerdeCase, out: &mut Outcome) {
     match fam {
         "bitvec" => {
             let b = gen_bits(c);
-            roundtrip!(BitVec, &b, c, out, d_bits, n);
+            roundtrip!(BitVec, &b, c, out, d_bitvec, n);
         }
         "bfv_usize" => {
             let w = 1 + (c.seed % 64) as usize;
@@ -788,8 +834,19 @@ impl World for SerdeWorld {
         out.nontrivial = c.n > 0;
         run_family(c, &mut out);
         out.bucket(format!(
-            "{}|n={}|w{}|r{}|eintr={}|{}",
+            "{}{}|n={}|w{}|r{}|eintr={}|{}",
             c.family,
+            if c.family.starts_with("ef") {
+                if (c.seed >> 9) % 5 == 0 { "[huge]" } else { "" }
+            } else if c.family.starts_with("vf") || c.family.starts_with("rcl") || c.family.starts_with("bfv") {
+                ""
+            } else {
+                match (c.seed >> 17) % 6 {
+                    0 => "[popped]",
+                    1 => "[resized]",
+                    _ => "",
+                }
+            },
             match c.n {
                 0 => "0",
                 1 => "1",
